@@ -115,6 +115,9 @@ func Run(run *ev.Run) {
 		g := model.NewGen(s, rng)
 		g.Hostile = 0.15
 		for _, td := range s.Types {
+			if td.Kind == "complexkey" && s.Lookup(td.Key) != nil && s.HasDefault(s.Lookup(td.Key)) {
+				complexKeyDefaults(run, set, td, g, rng)
+			}
 			if td.Kind != "record" || !s.HasDefault(td) {
 				continue
 			}
@@ -239,6 +242,66 @@ func Run(run *ev.Run) {
 	run.Require("decodes.json", 200)
 	run.Require("aliasing_probes", 3)
 	run.Require("incomplete_decodes", 20)
+}
+
+// complexKeyDefaults: a complex key is decoded like the record it wraps; key fields the document omits carry their
+// defaults, supplied ones win.
+func complexKeyDefaults(run *ev.Run, set *bridge.Set, td *corpus.TypeDef, g *model.Gen, rng *rand.Rand) {
+	s := set.Schema
+	full := td.FullName()
+	t := corpus.R(full)
+	key := s.Lookup(td.Key)
+	dfs := defaultedFields(s, key)
+	for rep := 0; rep < run.Pick(6, 40); rep++ {
+		v := g.Value(t, 0)
+		var modes []string
+		for i, f := range dfs {
+			if (rep+i)%3 != 2 {
+				delete(v.Fields, f.Name)
+				modes = append(modes, "omit")
+			} else {
+				v.Fields[f.Name] = g.Value(f.Type, 1)
+				modes = append(modes, "rand")
+			}
+		}
+		expected := refcodec.FillDefaults(s, t, v)
+		tree := refcodec.ToTree(s, t, v)
+		for _, rd := range []string{"json", "ror2", "untyped"} {
+			run.Eval(1)
+			run.Count("complex_key_decodes", 1)
+			var doc string
+			var p reflect.Value
+			var err error
+			switch rd {
+			case "json":
+				doc = refcodec.TreeJSON(tree, rng)
+				p, err = codec.Decode(codec.FormatByName("json-compact"), set, full, doc)
+			case "ror2":
+				doc = refcodec.TreeROR2(tree, refcodec.Header, rng)
+				p, err = codec.Decode(codec.FormatByName("ror2-header"), set, full, doc)
+			default:
+				doc = fmt.Sprint(tree)
+				p, err = codec.DecodeWith(restlicodec.NewInterfaceReader(untyped(tree)), set.New(full))
+			}
+			desc := map[string]any{"generation": GENERATION, "set": set.Name, "type": full, "reader": rd, "modes": strings.Join(modes, ","), "document": trunc(doc)}
+			if err != nil {
+				desc["error"] = err.Error()
+				run.Violation(GENERATION+"/complex-key/"+rd+"/error", desc)
+				continue
+			}
+			got, rerr := set.Read(p.Elem(), t)
+			if rerr != nil {
+				run.Inconclusive("bridge read: " + rerr.Error())
+				continue
+			}
+			if d := model.Diff(expected, got, ""); d != "" {
+				desc["detail"] = d
+				run.Violation(GENERATION+"/complex-key/"+rd+"/defaults-of-the-key-record", desc)
+				continue
+			}
+			run.Distinct(fmt.Sprintf("complexkey|%s|%s|%s", full, strings.Join(modes, ""), rd))
+		}
+	}
 }
 
 // incomplete decodes documents that omit a required field (top level, or inside a required record field) together with
